@@ -255,6 +255,12 @@ int main(int argc, char** argv){
       h_observe(slots[i],meta,comps);
       unsigned long a0=h_addr0(slots[i]);
       int where=-1; for(int b=0;b<nbufs;b++) if(a0>=(unsigned long)bufs[b] && a0<(unsigned long)(bufs[b]+80)) where=b;
+      { // raw representation (same layout as the IR's struct: dim, size, components, ptr_offset, isinit, isinit_d) for the representation invariants
+        struct Raw{ unsigned dim,size; double* comp; unsigned char off; unsigned char isinit, isinit_d; };
+        static_assert(sizeof(Raw)==sizeof(SU_vector),"SU_vector layout");
+        const Raw* r=reinterpret_cast<const Raw*>(slots[i]);
+        printf("  raw %d dim %u size %u isinit %u isinit_d %u comp %d\n",i,r->dim,r->size,(unsigned)r->isinit,(unsigned)r->isinit_d,r->comp?1:0);
+      }
       printf("  slot %d dim %u size %u ext %d :",i,meta[0],meta[1],where);
       for(unsigned k=0;k<meta[1]&&k<36;k++) printf(" %.17g",comps[k]);
       printf("\n");
